@@ -7,6 +7,7 @@ JSON timestamps are truncated to milliseconds)."""
 from __future__ import annotations
 
 import dataclasses
+import copy
 import datetime
 import enum
 
@@ -108,10 +109,21 @@ class Gen:
         r = self.r
         if r.random() < 0.5:
             k = r.choice([1, -1, 999, 1000, r.randint(-10**12, 4 * 10**12), r.randint(1_600_000_000_000, 1_900_000_000_000)])
-            return EPOCH + datetime.timedelta(milliseconds=k)
+            return self.zone(EPOCH + datetime.timedelta(milliseconds=k))
         m = r.choice([0, 500, 1001, 1999, r.randint(1000, 4 * 10**15), r.randint(-10**15, 4 * 10**15),
                       r.randint(1_600_000_000_000_000, 1_900_000_000_000_000)])
-        return EPOCH + datetime.timedelta(microseconds=m)
+        return self.zone(EPOCH + datetime.timedelta(microseconds=m))
+
+    def zone(self, dt):
+        """Same instant, sometimes expressed in another UTC offset (botocore hands out tzlocal() datetimes)."""
+        r = self.r
+        if r.random() < 0.3:
+            off = r.choice([120, -480, 330, 60, -1, 845])
+            try:
+                return dt.astimezone(datetime.timezone(datetime.timedelta(minutes=off)))
+            except OverflowError:
+                return dt
+        return dt
 
     def err(self):
         ls, r = self.ls, self.r
@@ -208,6 +220,21 @@ def run_cases(ctx, gen, n, component="wire"):
         cases.append(("wire.operation", o, {
             "dict": dv_json(o.to_dict()), "back": back(lambda: ls.Operation.from_dict(o.to_dict())),
             "jdict": dv_json(o.to_json_dict()), "jback": back(lambda: ls.Operation.from_json_dict(o.to_json_dict()))}))
+        # decoding is a function of the wire value: it neither changes its argument nor depends on earlier decodes
+        wire = o.to_json_dict()
+        snap = copy.deepcopy(wire)
+        try:
+            first = ls.Operation.from_json_dict(wire)
+            second = ls.Operation.from_json_dict(wire)
+            if wire != snap:
+                ctx.violate("C20.decoder_changed_its_input", {"class": "wire.operation", "obj": obj_json(o), "variant": "jback"},
+                            {"before": dv_json(snap), "after": dv_json(wire)}, component)
+            elif first != second:
+                ctx.violate("C20.decoding_twice_differs", {"class": "wire.operation", "obj": obj_json(o), "variant": "jback"}, {}, component)
+        except Exception as e:  # noqa: BLE001
+            if wire != snap:
+                ctx.violate("C20.decoder_changed_its_input", {"class": "wire.operation", "obj": obj_json(o), "variant": "jback"},
+                            {"raised_on_second_decode": repr(e)[:200]}, component)
     for _ in range(n // 2):
         x = gen.inv_input()
         cases.append(("wire.input", x, {
@@ -271,6 +298,8 @@ def hunt_timestamps(ctx, rng, n, component="wire.timestamps"):
         m = rng.randint(-10**15, 4 * 10**15)
         dt = EPOCH + datetime.timedelta(microseconds=m)
         ctx.evaluations += 1
+        if rng.random() < 0.3:
+            dt = dt.astimezone(datetime.timezone(datetime.timedelta(minutes=rng.choice([120, -480, 330, 845]))))
         if T.to_unix_millis(dt) != m // 1000:
             ctx.violate("C20.millisecond_truncation", {"micros": m}, {"got": T.to_unix_millis(dt), "floor": m // 1000}, component)
             break
